@@ -619,7 +619,8 @@ def fam_g_reducer(cls, rule):
 
 G_REDUCERS = [("Multiply", "_reduce_product_when_multiplying_by_zero"), ("Multiply", "_reduce_product_by_eliminating_ones"),
               ("Add", "_reduce_sum_by_eliminating_zeros"),
-              ("Multiply", "_reduce_product_by_consolidating_constants"), ("Add", "_reduce_sum_by_consolidating_constants")]
+              ("Multiply", "_reduce_product_by_consolidating_constants"), ("Add", "_reduce_sum_by_consolidating_constants"),
+              ("Multiply", "_reduce_product_by_eliminating_negations")]
 
 _specs4 = specs
 
